@@ -190,12 +190,15 @@ class TexturedTriMesh(TriMesh):
         trimesh : :map:`TriMesh`
             A new trimesh created from the vector with ``self`` trilist.
         """
-        return TexturedTriMesh(
+        new = TexturedTriMesh(
             flattened.reshape([-1, self.n_dims]),
             self.tcoords.points,
             self.texture,
             trilist=self.trilist,
         )
+        if self.has_landmarks:
+            new.landmarks = self.landmarks
+        return new
 
     def from_mask(self, mask):
         """
